@@ -27,7 +27,7 @@ OVERLAY = "/tmp/quic-overlay.json"
 TARGETS = {
     "node/pkg/processor/observation.go": ("node", "./pkg/processor", False, ["C01", "C02", "C03"]),
     "node/pkg/processor/message.go": ("node", "./pkg/processor", False, ["C02", "C13", "C04"]),
-    "node/pkg/processor/broadcast.go": ("node", "./pkg/processor", False, ["C02", "C01"]),
+    "node/pkg/processor/broadcast.go": ("node", "./pkg/processor", False, ["C02", "C01", "C13"]),
     "node/pkg/processor/cleanup.go": ("node", "./pkg/processor", False, ["C14", "C13"]),
     "node/pkg/processor/injection.go": ("node", "./pkg/processor", False, ["C02", "C13"]),
     "node/pkg/processor/processor.go": ("node", "./pkg/processor", False, ["C01", "C03"]),
